@@ -417,10 +417,8 @@ Section WithEnv.
     (* initialise the sub-command named by [arg] and continue there *)
     let descend (arg : str) (rest : list str) (levels' : list level) (paths' : list (list str))
                 (filled' : list (list str * list container * list container)) : option result :=
-        (fix go (l : list cmd) : option result :=
-           match l with
-           | [] => None
-           | sub :: l' =>
+        first_some
+          (fun sub =>
              if is_alias sub arg then
                let path' := path ++ [c_name false sub] in
                Some match do_init (c_decls sub) (c_spec sub) with
@@ -430,8 +428,7 @@ Section WithEnv.
                     | IDeclPanic m => mkResult (RPanicDecl m) [] err filled'
                     | IFuel => mkResult RFuel [] err filled'
                     end
-             else go l'
-           end) subs in
+             else None) subs in
     (* "Error: ..." + PrintHelp + onError(err); return err *)
     let reject (e : errclass) (line : str) : result :=
         let (text, interrupted) := print_help path c i false in
@@ -493,7 +490,7 @@ Section WithEnv.
 
   (** * Cli *)
 
-  Record app := mkApp {
+  Record cliapp := mkApp {
     a_root : cmd;
     a_version : option (str * str)      (* Version(name, version) *)
   }.
@@ -502,14 +499,14 @@ Section WithEnv.
     mkDecl true KBool name (lit "Show the version and exit") [] true (VBool false) false.
 
   (** the root's declarations: Version is declared first *)
-  Definition root_decls (a : app) : list decl :=
+  Definition root_decls (a : cliapp) : list decl :=
     match a_version a with
     | Some (n, _) => version_decl n :: c_decls (a_root a)
     | None => c_decls (a_root a)
     end.
 
   (** Cli.Run(args) with args[0] dropped *)
-  Definition run (a : app) (argv : list str) : result :=
+  Definition run (a : cliapp) (argv : list str) : result :=
     let c := a_root a in
     let policy := effective_policy 1 c in     (* App() starts with ExitOnError *)
     match do_init (root_decls a) (c_spec c) with
